@@ -272,6 +272,7 @@ func runC15(sc *Scenario, keepLog bool) *RunReport {
 			Detail: "all unfinished tasks are blocked on a mutex of package validate: some call never returns"})
 	}
 	raceViolations("C15", cr, rep)
+	rep.probe("hb-token-table-overflow (objects sharing the fallback token: races may be missed)", int(cr.TokOverflow))
 	for ti := range sc.Tasks {
 		for i := range sc.Tasks[ti] {
 			op := &sc.Tasks[ti][i]
